@@ -28,6 +28,17 @@ Proof.
   - destruct (IH _ _ H) as [j [Hj Hn]]. exists (S j). split; [lia|]. exact Hn.
 Qed.
 
+Lemma indices_named_name nm : forall l k i, In i (indices_named nm l k) ->
+  exists j, i = (k + j)%nat /\ forall nd', nth_error l j = Some nd' -> nm = fg_name (n_cfg nd').
+Proof.
+  induction l as [|x t IH]; intros k i H; simpl in H; [destruct H|].
+  destruct (String.eqb (fg_name (n_cfg x)) nm) eqn:E.
+  - destruct H as [<-|H].
+    + exists 0%nat. split; [lia|]. intros nd' [= <-]. symmetry. apply String.eqb_eq. exact E.
+    + destruct (IH _ _ H) as [j [Hj Hn]]. exists (S j). split; [lia|]. exact Hn.
+  - destruct (IH _ _ H) as [j [Hj Hn]]. exists (S j). split; [lia|]. exact Hn.
+Qed.
+
 (** * "witnessed" in terms of is_embedding *)
 Section WitnessExact.
   Variable w : option string.
@@ -184,15 +195,15 @@ Section CheckSound.
   Proof.
     unfold result_okb, covering_okb. rewrite andb_true_iff, !forallb_forall. intros [Hent Hcov]. split.
     - intros [nm atoms] He. specialize (Hent _ He). unfold entry_okb in Hent.
-      destruct (find_index nm (ns tr) 0) as [i|] eqn:Ei; [|discriminate].
-      unfold cfg_at, ns in Hent. destruct (nth_error (t_nodes tr) i) as [nd|] eqn:End; simpl in Hent; [|discriminate].
-      rewrite !andb_true_iff in Hent. destruct Hent as [[Hs Hn] Ha].
+      rewrite !andb_true_iff in Hent. destruct Hent as [[Hs Hn] Hany].
+      apply anyb_exists in Hany. destruct Hany as [i [Hi Ha]]. unfold entry_node_okb in Ha.
+      unfold cfg_at, ns in Ha. destruct (nth_error (t_nodes tr) i) as [nd|] eqn:End; simpl in Ha; [|discriminate].
       apply anyb_exists in Ha. destruct Ha as [a [Hain Ha]].
       destruct (is_candidate g a) eqn:Ec; [|discriminate].
       destruct (witnessed_withb w ic G max_id (n_cfg nd) a atoms) eqn:Ew; [|discriminate].
       apply negb_true_iff in Ha.
       exists i, nd, a. split; [exact End|]. split.
-      { destruct (find_index_name nm (t_nodes tr) 0%nat i Ei) as [j [Hj Hnm]]. simpl in Hj. subst j.
+      { destruct (indices_named_name nm (t_nodes tr) 0%nat i Hi) as [j [Hj Hnm]]. simpl in Hj. subst j.
         simpl. apply Hnm. exact End. }
       split; [apply strictly_increasing_sorted; exact Hs|]. split.
       { rewrite forallb_forall in Hn. intros x Hx. apply zmem_In. apply Hn. exact Hx. }
